@@ -391,6 +391,11 @@ func Fetch(
 		fetchedCommits, err := fetchObjects(cmd, db, rs, client, advertised, depth, container)
 		if err != nil {
 			if isStreamError(err) {
+				// negotiate again from scratch: drop the cookie of the interrupted upload-pack
+				// session, otherwise the remote resumes it after the packfile that was cut short
+				if err := client.ResetCookies(); err != nil {
+					return err
+				}
 				continue
 			}
 			return fmt.Errorf("error fetching objects: %w", err)
